@@ -546,6 +546,15 @@ Proof.
     + specialize (IH _ _ _ _ _ H Eb Hc). lia.
     + injection H as <-. lia.
 Qed.
+Lemma skip_trail_rev_bound : forall a idx b p c b', av_skip_trail_rev idx (a ++ b) = Some p -> b = c :: b' -> av_removable c = false ->
+  p <= idx + len a.
+Proof.
+  induction a as [|x a IH]; intros idx b p c b' H Eb Hc.
+  - cbn [app] in H. subst b. cbn [av_skip_trail_rev] in H. rewrite Hc in H. cbn [negb orb] in H. injection H as <-. rewrite len_nil. lia.
+  - cbn [app av_skip_trail_rev] in H. rewrite len_cons. destruct (negb (av_removable x) || av_bs_odd (a ++ b)).
+    + injection H as <-. lia.
+    + specialize (IH _ _ _ _ _ H Eb Hc). lia.
+Qed.
 Lemma take_app_ge (P v:bytes) k : len P <= k -> take k (P ++ v) = P ++ take (k - len P) v.
 Proof.
   intros H. unfold take, len in *. rewrite firstn_app. rewrite firstn_all2 by lia. f_equal. f_equal. lia.
@@ -570,8 +579,8 @@ Proof.
   - destruct (skip_trail_bytes _ _ _ Hu Et) as (T1 & T2).
     destruct (N.ltb_spec (len (P ++ v)) p); [lia|]. unfold av_str_to. rewrite T2.
     assert (Hp : p <= len v).
-    { unfold av_skip_trail in Et. rewrite rev_app_distr in Et.
-      pose proof (skip_start_bound _ _ _ _ _ _ Et Erev Hpl) as B. rewrite len_rev in B.
+    { rewrite skip_trail_rev_eq, rev_app_distr in Et.
+      pose proof (skip_trail_rev_bound _ _ _ _ _ _ Et Erev Hpl) as B. rewrite len_rev in B.
       pose proof (utf8_len_le _ _ _ (le_n _) Ev). lia. }
     destruct (509 <? _); [discriminate|]. intros E. injection E as <-.
     rewrite len_app in *. rewrite take_app_ge by lia. eexists. split; [reflexivity|]. apply lead_ok_take. exact Lv.
